@@ -49,7 +49,7 @@ func (s *segSource) read(b []byte) (int, error) {
 
 func le32(v uint32) []byte { return []byte{byte(v), byte(v >> 8), byte(v >> 16), byte(v >> 24)} }
 
-// H_C08_segmented: k messages of 1..maxw words (symbolic content) and then a four-byte error frame, framed by the
+// H_C08_segmented: k messages of 0..maxw words (symbolic content) and then a four-byte error frame, framed by the
 // peer as the format prescribes (restated here), reach the client through the real connection wrapper
 // (tcpConn over go-dry's CancelableReader) and the real mode, with the socket's Read/Write replaced inside the
 // engine by segSource.  seg 0: unsplit; 1: one byte per read; 2: every pair of cut points (symbolic); 3: the first
@@ -63,7 +63,7 @@ func H_C08_segmented(variant, k, maxw, seg int) {
 	msgs := make([][]byte, k)
 	var stream []byte
 	for i := range msgs {
-		msgs[i] = verifrt.Bytes(4 * (1 + verifrt.Len(maxw-1)))
+		msgs[i] = verifrt.Bytes(4 * verifrt.Len(maxw)) // 0..maxw words: the empty message is a message too
 		if seg == 3 && i == 0 {
 			// a 127-word message (long abridged header), zero payload with symbolic ends
 			msgs[i] = make([]byte, 508)
